@@ -23,6 +23,18 @@
 //! Agreement with the exact loop (attempts == min(first non-retryable, max)) is
 //! only counted.
 //!
+//! Two further families of scenarios widen the driver, with the same clauses:
+//!   * `c19_maint.rs` (axis A): how the cached connection came to be and what
+//!     happened to it before the judged calls -- prefixes made of earlier calls,
+//!     connect_all, health_check, reconnect_disconnected, disconnect_all, the node
+//!     dead meanwhile -- and one such maintenance call between the last scripted
+//!     outcome and the healthy calls. O1..O4 on every fleet call; the maintenance
+//!     calls themselves only have to return.
+//!   * `c19_dyn.rs` (axis B): O5 while the node set changes (add_node /
+//!     remove_node sequences), for broadcast_json and map_reduce_json, with
+//!     filter_nodes as a differential oracle, nodes up / dead / behind a
+//!     half-open cached client.
+//!
 //! Timing discipline. Every step waits for a predicted positive event (connect
 //! call, whole request readable, EOF, call returned) under a 10 s watchdog. The
 //! one real-time element is the fleet's own node timeout (150 ms) which a
@@ -35,6 +47,10 @@
 
 #[path = "c19_node.rs"]
 mod node;
+#[path = "c19_maint.rs"]
+mod maint;
+#[path = "c19_dyn.rs"]
+mod dynset;
 
 use crate::ctx::{Ctx, Samples, Tier};
 use node::{ALPHABET, Attempt, FakeNode, Garbage, Out, Realized, Watch};
@@ -437,6 +453,8 @@ struct CallObs {
     res: Res,
     connected_after: Option<bool>,
     elapsed: Duration,
+    /// connect(2) calls to the node during this call (None: not recorded)
+    new_connects: Option<u64>,
 }
 
 #[derive(Clone, Debug)]
@@ -450,6 +468,45 @@ struct ScenObs {
     /// the run was disturbed by the machine (something that never waits took
     /// about a node timeout): it is repeated, never judged on its timing
     disturbed: Option<String>,
+    /// maintenance calls made in between (prefixed scenarios), each with the
+    /// number of fleet calls that came before it
+    maint: Vec<maint::MaintObs>,
+    /// how many of `calls` belong to the prefix
+    prefix_calls: usize,
+    prefix_outcomes_unused: usize,
+}
+
+impl ScenObs {
+    fn empty() -> ScenObs {
+        ScenObs {
+            calls: Vec::new(),
+            stalled: false,
+            dropped_outcomes: 0,
+            expected_replies: BTreeMap::new(),
+            expected_errors: BTreeMap::new(),
+            disturbed: None,
+            maint: Vec::new(),
+            prefix_calls: 0,
+            prefix_outcomes_unused: 0,
+        }
+    }
+}
+
+/// A call that overran by about a node timeout beyond its silent attempts: the
+/// machine disturbed the run (the only thing in a call that waits is a silent attempt).
+fn mark_slow_calls(obs: &mut ScenObs) {
+    for (i, c) in obs.calls.iter().enumerate() {
+        let silent = c.attempts.iter().filter(|a| a.realized == Realized::Silent).count() as u32;
+        let excess = c.elapsed.saturating_sub(NODE_TIMEOUT * silent);
+        if excess >= NODE_TIMEOUT * 4 / 5 && !matches!(c.res, Res::Hang) {
+            obs.disturbed = Some(format!(
+                "call #{} took {} ms with {silent} silent attempt(s)",
+                i + 1,
+                c.elapsed.as_millis()
+            ));
+            break;
+        }
+    }
 }
 
 fn run_single(sc: &Scenario) -> Result<ScenObs, String> {
@@ -459,14 +516,7 @@ fn run_single(sc: &Scenario) -> Result<ScenObs, String> {
         .and_then(|c| c.with_timeout(NODE_TIMEOUT))
         .map_err(|e| e.to_string())?;
     let driver = Driver::new(sc.kind, vec![cfg], sc.max)?;
-    let mut obs = ScenObs {
-        calls: Vec::new(),
-        stalled: false,
-        dropped_outcomes: 0,
-        expected_replies: BTreeMap::new(),
-        expected_errors: BTreeMap::new(),
-        disturbed: None,
-    };
+    let mut obs = ScenObs::empty();
     let cap = 2 * sc.script.len() + 2;
     let mut call_no: u64 = 0;
     let mut abort = false;
@@ -474,6 +524,7 @@ fn run_single(sc: &Scenario) -> Result<ScenObs, String> {
     let one_call = |healthy: bool, obs: &mut ScenObs, call_no: &mut u64| -> Result<bool, String> {
         *call_no += 1;
         let start = node.begin_call(*call_no)?;
+        let connects0 = node.connects_seen();
         let t_call = Instant::now();
         let res = driver.call("n0", sc.api, *call_no);
         let elapsed = t_call.elapsed();
@@ -503,6 +554,7 @@ fn run_single(sc: &Scenario) -> Result<ScenObs, String> {
             res,
             connected_after,
             elapsed,
+            new_connects: Some(node.connects_seen() - connects0),
         });
         Ok(hung)
     };
@@ -539,19 +591,7 @@ fn run_single(sc: &Scenario) -> Result<ScenObs, String> {
     if let Some(a) = anomalies.first() {
         obs.disturbed = Some(a.clone());
     }
-    for (i, c) in obs.calls.iter().enumerate() {
-        // the only thing in a call that waits is a silent attempt
-        let silent = c.attempts.iter().filter(|a| a.realized == Realized::Silent).count() as u32;
-        let excess = c.elapsed.saturating_sub(NODE_TIMEOUT * silent);
-        if excess >= NODE_TIMEOUT * 4 / 5 && !matches!(c.res, Res::Hang) {
-            obs.disturbed = Some(format!(
-                "call #{} took {} ms with {silent} silent attempt(s)",
-                i + 1,
-                c.elapsed.as_millis()
-            ));
-            break;
-        }
-    }
+    mark_slow_calls(&mut obs);
     Ok(obs)
 }
 
@@ -578,33 +618,46 @@ fn show_attempts(a: &[Attempt]) -> String {
 }
 
 fn show_calls(obs: &ScenObs) -> String {
-    obs.calls
-        .iter()
-        .enumerate()
-        .map(|(i, c)| {
-            format!(
-                "#{}{}{} attempts={} -> {}{}",
-                i + 1,
-                if c.healthy_phase { "(healthy)" } else { "" },
-                if c.excused { "(after a killed connection)" } else { "" },
-                show_attempts(&c.attempts),
-                c.res.show(),
-                match c.connected_after {
-                    Some(b) => format!(" is_connected={b}"),
-                    None => String::new(),
-                }
-            )
-        })
-        .collect::<Vec<_>>()
-        .join(" | ")
+    let mut parts: Vec<String> = Vec::new();
+    for (i, c) in obs.calls.iter().enumerate() {
+        parts.extend(obs.maint.iter().filter(|m| m.at_call == i).map(maint::show_maint));
+        parts.push(show_call(i, c));
+    }
+    parts.extend(obs.maint.iter().filter(|m| m.at_call >= obs.calls.len()).map(maint::show_maint));
+    parts.join(" | ")
+}
+
+fn show_call(i: usize, c: &CallObs) -> String {
+    format!(
+        "#{}{}{} attempts={} -> {}{}",
+        i + 1,
+        if c.healthy_phase { "(healthy)" } else { "" },
+        if c.excused { "(after a killed connection)" } else { "" },
+        show_attempts(&c.attempts),
+        c.res.show(),
+        match c.connected_after {
+            Some(b) => format!(" is_connected={b}"),
+            None => String::new(),
+        }
+    )
 }
 
 fn judge_single(sc: &Scenario, obs: &ScenObs) -> Vec<Viol> {
-    let f = sc.kind.name();
+    judge_calls(sc.kind, sc.max, &sc.label(), obs)
+}
+
+/// The clauses O1..O4 over the calls of one single-node scenario (whatever
+/// brought the fleet into the state in which each call began).
+fn judge_calls(kind: Kind, max_attempts: usize, label: &str, obs: &ScenObs) -> Vec<Viol> {
+    struct Sc {
+        max: usize,
+    }
+    let sc = Sc { max: max_attempts };
+    let f = kind.name();
     let mut out: Vec<Viol> = Vec::new();
     let mut add = |key: String, what: String| {
         if !out.iter().any(|v| v.key == key) {
-            out.push(Viol { key, what: format!("{what}; scenario {}; calls: {}", sc.label(), show_calls(obs)) });
+            out.push(Viol { key, what: format!("{what}; scenario {label}; calls: {}", show_calls(obs)) });
         }
     };
     for (i, c) in obs.calls.iter().enumerate() {
@@ -935,6 +988,8 @@ fn judge_tags(ts: &TagScenario, obs: &[BcastObs]) -> Vec<Viol> {
 enum Case {
     Single(Scenario),
     Tags(TagScenario),
+    Prefixed(maint::PScenario),
+    Dyn(dynset::DynScenario),
 }
 
 impl Case {
@@ -942,12 +997,16 @@ impl Case {
         match self {
             Case::Single(s) => s.to_json(),
             Case::Tags(t) => t.to_json(),
+            Case::Prefixed(p) => p.to_json(),
+            Case::Dyn(d) => d.to_json(),
         }
     }
     fn from_json(v: &Value) -> Option<Case> {
         match v["shape"].as_str()? {
             "single" => Scenario::from_json(v).map(Case::Single),
             "tags" => TagScenario::from_json(v).map(Case::Tags),
+            "prefixed" => maint::PScenario::from_json(v).map(Case::Prefixed),
+            "dynamic" => dynset::DynScenario::from_json(v).map(Case::Dyn),
             _ => None,
         }
     }
@@ -955,6 +1014,8 @@ impl Case {
         match self {
             Case::Single(s) => s.label(),
             Case::Tags(t) => t.label(),
+            Case::Prefixed(p) => p.label(),
+            Case::Dyn(d) => d.label(),
         }
     }
 }
@@ -982,6 +1043,10 @@ enum Block {
     Tags { kind: Kind },
     /// every error code of `ERR_CODES` x every script of length 1..=2 that contains an application error
     Codes { kind: Kind, api: Api, max: usize },
+    /// one prefix x one recovery op x every script of one length (axis A)
+    Prefixed { kind: Kind, api: Api, max: usize, len: usize, prefix: usize, recover: Option<maint::MOp> },
+    /// one initial node set x every add/remove sequence of one length (axis B)
+    Dyn { kind: Kind, init: usize, warm: bool, len: usize },
 }
 
 impl Block {
@@ -990,6 +1055,8 @@ impl Block {
             Block::Single { len, .. } => crate::par::pow(ALPHABET.len() as u64, *len as u32),
             Block::Tags { .. } => crate::par::pow(1 << TAGS.len(), TAG_NODES as u32),
             Block::Codes { .. } => (ERR_CODES.len() * code_scripts().len()) as u64,
+            Block::Prefixed { len, .. } => crate::par::pow(ALPHABET.len() as u64, *len as u32),
+            Block::Dyn { len, .. } => crate::par::pow(dynset::OP_LETTERS, *len as u32),
         }
     }
     fn case(&self, i: u64) -> Case {
@@ -1013,6 +1080,37 @@ impl Block {
                 let (ci, si) = ((i as usize) / scripts.len(), (i as usize) % scripts.len());
                 Case::Single(Scenario { kind: *kind, api: *api, max: *max, garbage: Garbage::BadSpec, err_code: ERR_CODES[ci], script: scripts[si].clone() })
             }
+            Block::Prefixed { kind, api, max, len, prefix, recover } => {
+                let mut d = Vec::new();
+                crate::par::digits(i, ALPHABET.len() as u64, *len, &mut d);
+                d.reverse();
+                Case::Prefixed(maint::PScenario {
+                    kind: *kind,
+                    api: *api,
+                    max: *max,
+                    garbage: Garbage::BadSpec,
+                    prefix: *prefix,
+                    recover: *recover,
+                    script: d.iter().map(|x| ALPHABET[*x as usize]).collect(),
+                })
+            }
+            Block::Dyn { kind, init, warm, len } => {
+                let mut d = Vec::new();
+                crate::par::digits(i, dynset::OP_LETTERS, *len, &mut d);
+                d.reverse();
+                // the health assignment of the mixed round walks through all 3^4 as the sequences go by
+                let mut h = Vec::new();
+                crate::par::digits((i + 7 * *init as u64 + 40 * *warm as u64) % 81, 3, TAG_NODES, &mut h);
+                let mut health = [0u8; TAG_NODES];
+                health.copy_from_slice(&h);
+                Case::Dyn(dynset::DynScenario {
+                    kind: *kind,
+                    init: *init,
+                    warm: *warm,
+                    ops: d.iter().map(|x| dynset::DynOp::from_digit(*x)).collect(),
+                    health,
+                })
+            }
             Block::Tags { kind } => {
                 let mut d = Vec::new();
                 crate::par::digits(i, 1 << TAGS.len(), TAG_NODES, &mut d);
@@ -1034,6 +1132,19 @@ impl Plan {
     fn new(tier: Tier) -> Plan {
         let max_hi = tier.pick(2usize, 3usize);
         let mut blocks = Vec::new();
+        let cat = maint::catalogue();
+        let kinds = [Kind::Blocking, Kind::Async];
+        // axis A, the prefixes in which health_check runs into its own 5 s timeout: first, so
+        // that they wait while everything else runs
+        for (pi, _) in cat.iter().enumerate().filter(|(_, p)| p.slow) {
+            for max in 1..=max_hi {
+                for len in 0..=tier.pick(0usize, 1usize) {
+                    for kind in kinds {
+                        blocks.push(Block::Prefixed { kind, api: Api::Json, max, len, prefix: pi, recover: None });
+                    }
+                }
+            }
+        }
         for kind in [Kind::Blocking, Kind::Async] {
             blocks.push(Block::Tags { kind });
         }
@@ -1068,6 +1179,72 @@ impl Plan {
                     }
                 }
             }
+        }
+        // axis A: every prefix x scripts (quick: length <= 2 for max_attempts 1, <= 1 for 2;
+        // thorough: the prefixes named in the assignment at full depth max_attempts+2 for
+        // max_attempts <= 2, everything else at length <= 2)
+        for len in 0..=max_hi + 2 {
+            for max in 1..=max_hi {
+                for (pi, p) in cat.iter().enumerate().skip(1).filter(|(_, p)| !p.slow) {
+                    let deepest = match tier {
+                        Tier::Quick => if max == 1 { 2 } else { 1 },
+                        Tier::Thorough => if p.core && max <= 2 { max + 2 } else { 2 },
+                    };
+                    if len > deepest {
+                        continue;
+                    }
+                    for kind in kinds {
+                        blocks.push(Block::Prefixed { kind, api: Api::Json, max, len, prefix: pi, recover: None });
+                        if tier == Tier::Thorough && len <= 1 {
+                            blocks.push(Block::Prefixed { kind, api: Api::Message, max, len, prefix: pi, recover: None });
+                        }
+                    }
+                }
+            }
+        }
+        // axis A: a maintenance call between the last scripted outcome and the healthy calls
+        for len in 0..=tier.pick(2usize, 3usize) {
+            for max in 1..=max_hi {
+                for op in maint::RECOVER_OPS {
+                    for kind in kinds {
+                        blocks.push(Block::Prefixed { kind, api: Api::Json, max, len, prefix: 0, recover: Some(op) });
+                    }
+                }
+            }
+        }
+        // axis A: prefix x recovery op on the shortest scripts
+        for len in 0..=tier.pick(0usize, 1usize) {
+            for max in 1..=max_hi {
+                for (pi, _) in cat.iter().enumerate().skip(1).filter(|(_, p)| !p.slow) {
+                    for op in maint::RECOVER_OPS {
+                        for kind in kinds {
+                            blocks.push(Block::Prefixed { kind, api: Api::Json, max, len, prefix: pi, recover: Some(op) });
+                        }
+                    }
+                }
+            }
+        }
+        // axis B: add/remove sequences, then the broadcast sweep
+        for len in 0..=tier.pick(2usize, 3usize) {
+            for (init, warm) in [(0usize, true), (2, false), (0, false), (1, true), (1, false)] {
+                // all members present and connected, and the empty fleet, get the long sequences
+                let long = (init == 0 && warm) || init == 2;
+                if !long && len > tier.pick(1, 2) {
+                    continue;
+                }
+                for kind in kinds {
+                    blocks.push(Block::Dyn { kind, init, warm, len });
+                }
+            }
+        }
+        // debug aid (never set by ./run): C19_ONLY=classic|prefixed|dynamic keeps one family of blocks;
+        // the non-vacuity requirements of the others then fail the run as a machinery error
+        if let Ok(only) = std::env::var("C19_ONLY") {
+            blocks.retain(|b| match b {
+                Block::Prefixed { .. } => only == "prefixed",
+                Block::Dyn { .. } => only == "dynamic",
+                _ => only == "classic",
+            });
         }
         let mut starts = Vec::new();
         let mut total = 0u64;
@@ -1266,6 +1443,20 @@ fn execute_once(case: &Case) -> Result<Exec, String> {
             let disturbed = obs.disturbed.clone();
             Ok(Exec { viols, stats, trace: show_calls(&obs), disturbed })
         }
+        Case::Prefixed(ps) => {
+            let obs = maint::run_prefixed(ps)?;
+            let viols = maint::judge_prefixed(ps, &obs);
+            maint::account_prefixed(&mut stats, ps, &obs);
+            let disturbed = obs.disturbed.clone();
+            Ok(Exec { viols, stats, trace: show_calls(&obs), disturbed })
+        }
+        Case::Dyn(ds) => {
+            let obs = dynset::run_dyn(ds)?;
+            let viols = dynset::judge_dyn(ds, &obs);
+            dynset::account_dyn(&mut stats, ds, &obs);
+            let disturbed = obs.disturbed.clone();
+            Ok(Exec { viols, stats, trace: dynset::trace(&obs), disturbed })
+        }
         Case::Tags(ts) => {
             let obs = run_tags(ts)?;
             let viols = judge_tags(ts, &obs);
@@ -1368,7 +1559,8 @@ fn settle(case: &Case) -> Settled {
             confirmed.push(runs[0].viols.iter().find(|v| &v.key == key).unwrap().clone());
             CONFIRMED.lock().unwrap_or_else(|p| p.into_inner()).insert(key.clone());
         } else {
-            dropped.push(format!("candidate {key} on {} did not reproduce", case.label()));
+            let what = runs.iter().flat_map(|r| r.viols.iter()).find(|v| &v.key == key).map(|v| v.what.chars().take(700).collect::<String>()).unwrap_or_default();
+            dropped.push(format!("candidate {key} on {} did not reproduce; it read: {what}", case.label()));
         }
     }
     // the accepted execution: the first one if something was confirmed, else
@@ -1423,6 +1615,8 @@ pub fn run(tier: Tier) -> ! {
     }
     let plan = Plan::new(tier);
     let samples = Samples::new(12);
+    let samples_prefixed = Samples::new(6);
+    let samples_dyn = Samples::new(4);
     // scenarios mostly wait (150 ms node timeouts), so run two per core
     let jobs = (crate::par::workers() * 2).max(2);
     let cursor = AtomicU64::new(0);
@@ -1435,6 +1629,8 @@ pub fn run(tier: Tier) -> ! {
             let cursor = &cursor;
             let plan = &plan;
             let samples = &samples;
+            let samples_prefixed = &samples_prefixed;
+            let samples_dyn = &samples_dyn;
             hs.push(scope.spawn(move || {
                 let mut st = Stats::default();
                 let mut dropped_here = Vec::new();
@@ -1452,6 +1648,15 @@ pub fn run(tier: Tier) -> ! {
                             }
                             if matches!(&case, Case::Single(s) if s.script.len() >= 2) || i % 97 == 0 {
                                 samples.offer(|| json!({"case": case.label(), "observed": exec.trace, "violations": confirmed.len()}));
+                            }
+                            match &case {
+                                Case::Prefixed(p) if !p.script.is_empty() && i % 53 == 0 => {
+                                    samples_prefixed.offer(|| json!({"case": case.label(), "observed": exec.trace, "violations": confirmed.len()}))
+                                }
+                                Case::Dyn(d) if d.ops.len() >= 2 && i % 211 == 0 => {
+                                    samples_dyn.offer(|| json!({"case": case.label(), "observed": exec.trace, "violations": confirmed.len()}))
+                                }
+                                _ => {}
                             }
                             st.merge(exec.stats);
                             if !confirmed.is_empty() {
@@ -1481,7 +1686,7 @@ pub fn run(tier: Tier) -> ! {
         ctx.machinery(format!("{} scenario(s) could not be run; first: {m}", total.machinery.len()));
     }
     dropped_all.sort();
-    for d in dropped_all.iter().take(6) {
+    for d in dropped_all.iter().take(if std::env::var_os("C19_ONLY").is_some() { 200 } else { 6 }) {
         ctx.note(format!("dropped (not reproducible): {d}"));
     }
     let transient = dropped_all.len() as u64;
@@ -1529,6 +1734,53 @@ pub fn run(tier: Tier) -> ! {
                 "broadcasts_addressing_2_of_4",
                 "broadcasts_addressing_4_of_4",
                 "broadcasts_with_a_node_down",
+                // axis A: every maintenance call really made, in every role, and the states it is there to produce
+                "maint:connect_all:made_a_connection",
+                "maint:connect_all:against_dead_node_returned",
+                "maint:connect_all:while_cached_connection_was_killed",
+                "maint:connect_all:recover",
+                "maint:health_check:reported_healthy",
+                "maint:health_check:reported_unhealthy",
+                "maint:health_check:against_dead_node_returned",
+                "maint:health_check:request_travelled_on_cached_connection",
+                "maint:health_check:request_met:accepted-then-closed",
+                "maint:health_check:request_met:malformed-reply",
+                "maint:health_check:request_met:application-error",
+                "maint:health_check:request_met:closed-while-idle",
+                "maint:health_check:request_met:silent-until-timeout",
+                "maint:health_check:while_cached_connection_was_killed",
+                "maint:health_check:recover",
+                "maint:reconnect_disconnected:made_a_connection",
+                "maint:reconnect_disconnected:while_cached_connection_was_killed",
+                "maint:reconnect_disconnected:recover",
+                "maint:disconnect_all:with_a_client_cached",
+                "maint:disconnect_all:while_cached_connection_was_killed",
+                "maint:disconnect_all:recover",
+                "prefixed:call_answered_on_connection_left_by:connect_all",
+                "prefixed:call_answered_on_connection_left_by:health_check",
+                "prefixed:call_answered_on_connection_left_by:reconnect_disconnected",
+                "prefixed:healthy_calls_succeeded",
+                "prefixed:healthy_calls_excused",
+                // axis B: the node set really changed, and the fan-outs met it in every health state
+                "dyn:add_node:added",
+                "dyn:add_node:rejected",
+                "dyn:add_node:re-added_with_different_tags",
+                "dyn:remove_node:removed",
+                "dyn:remove_node:not-found",
+                "dyn:remove_node:of_a_node_with_cached_connection",
+                "dyn:broadcast_json:after_a_removal",
+                "dyn:map_reduce_json:after_a_removal",
+                "dyn:broadcast_json:addressing_0_of_4",
+                "dyn:broadcast_json:addressing_4_of_4",
+                "dyn:map_reduce_json:addressing_0_of_4",
+                "dyn:map_reduce_json:addressing_4_of_4",
+                "dyn:broadcast_json:addressing_a_dead_node",
+                "dyn:map_reduce_json:addressing_a_dead_node",
+                "dyn:broadcast_json:addressing_a_node_behind_a_half_open_client",
+                "dyn:map_reduce_json:addressing_a_node_behind_a_half_open_client",
+                "dyn:broadcast_json:mixed_health_among_addressed",
+                "dyn:map_reduce_json:mixed_health_among_addressed",
+                "dyn:filter_nodes_compared",
             ] {
                 if c(&format!("{f}:{k}")) == 0 {
                     missing.push(format!("{f}:{k}"));
@@ -1548,25 +1800,58 @@ pub fn run(tier: Tier) -> ! {
     ));
 
     let max_hi = tier.pick(2, 3);
+    let maint_calls_made: BTreeMap<String, u64> = maint::RECOVER_OPS
+        .iter()
+        .map(|o| (o.name().to_string(), c(&format!("fleet:maint:{}", o.name())) + c(&format!("async:maint:{}", o.name()))))
+        .collect();
+    let initial_node_sets: Vec<Vec<Option<Vec<&str>>>> = dynset::INITS.iter().map(|m| m.iter().map(|t| t.map(mask_tags)).collect()).collect();
+    let mut all_samples = samples.take();
+    all_samples.extend(samples_prefixed.take());
+    all_samples.extend(samples_dyn.take());
     let coverage = json!({
         "evaluations": total.scenarios,
         "fleet_calls_checked": total.calls,
         "attempts_observed": total.attempts,
         "distinct_nontrivial": total.signatures.len(),
         "exhaustive": true,
-        "rule": "for max_attempts in 1..=M, both fleets: every script over the 7 outcomes of length 0..=max_attempts+2 (one outcome per attempt, in order), then 2 calls against the healthy node; call_json on all of them, call_message on lengths <= L; malformed = bad spec magic everywhere and a length mismatch on the short scripts; broadcast: 4 nodes, every assignment of subsets of 2 tags (4^4) x every requested subset, plus one round with a node down",
+        "rule": "for max_attempts in 1..=M, both fleets: every script over the 7 outcomes of length 0..=max_attempts+2 (one outcome per attempt, in order), then 2 calls against the healthy node; call_json on all of them, call_message on lengths <= L; malformed = bad spec magic everywhere and a length mismatch on the short scripts; broadcast: 4 nodes, every assignment of subsets of 2 tags (4^4) x every requested subset, plus one round with a node down; AXIS A (prefixed scenarios): each prefix of `prefixes` (steps run in order against one node: calls meeting scripted outcomes, connect_all, health_check, reconnect_disconnected, disconnect_all, the node dead meanwhile) x every script of the stated length x {no recovery op} + every recovery op of `recovery_ops` (run between the last scripted outcome and the 2 healthy calls) x every script + prefix x recovery op on the shortest scripts; the clauses on attempts, retries, reported result and not-wedged are judged on every fleet call of the scenario, the maintenance calls only for returning; AXIS B (dynamic scenarios): each initial node set of `initial_node_sets` (warmed up by one broadcast or not) x every sequence of the stated length over the 20 letters remove_node(n0..n3) / add_node(n0..n3 x 4 tag subsets) x a health assignment in {up, dead, cached connection closed while idle}^4 that walks through all 81 as the sequences go by; then for every requested tag subset filter_nodes + broadcast_json + map_reduce_json with all nodes up, one broadcast after which the idle-closing nodes close, the same sweep with the dead nodes dead, one final broadcast with everything up; 4 fake nodes listen throughout, members or not",
         "bound": {"max_attempts": format!("1..={max_hi}"), "script_length": "0..=max_attempts+2", "call_message_script_length": tier.pick("0..=2", "all"), "healthy_calls": HEALTHY_CALLS, "tag_nodes": TAG_NODES, "tags": TAGS.len()},
+        "bound_axis_A": {
+            "prefixes": maint::catalogue().iter().skip(1).map(|p| p.name).collect::<Vec<_>>(),
+            "recovery_ops": maint::RECOVER_OPS.iter().map(|o| o.name()).collect::<Vec<_>>(),
+            "prefix_x_script": tier.pick(
+                "script length 0..=2 for max_attempts 1, 0..=1 for max_attempts 2; call_json; the prefix that runs into health_check's 5 s timeout: empty script only",
+                "script length 0..=max_attempts+2 for max_attempts 1..=2 on the prefixes call / connect_all / health_check / fail-R,reconnect_disconnected / call,disconnect_all / dead:connect_all; length 0..=2 otherwise (all prefixes, max_attempts 1..=3); call_message on length 0..=1; the prefix that runs into health_check's 5 s timeout: length 0..=1"),
+            "recovery_op_x_script": tier.pick("script length 0..=2, max_attempts 1..=2", "script length 0..=3, max_attempts 1..=3"),
+            "prefix_x_recovery_op": tier.pick("empty script, max_attempts 1..=2", "script length 0..=1, max_attempts 1..=3"),
+            "scenarios_executed": c("fleet:prefixed:scenarios") + c("async:prefixed:scenarios"),
+            "fleet_calls_in_them": c("fleet:prefixed:calls") + c("async:prefixed:calls"),
+            "maintenance_calls_made": maint_calls_made,
+        },
+        "bound_axis_B": {
+            "initial_node_sets": initial_node_sets,
+            "letters": dynset::OP_LETTERS,
+            "sequence_length": tier.pick(
+                "0..=2 from {all four members, warmed up} and from the empty fleet; 0..=1 from {all four, cold}, {n0:{a,b} n2:{a}, warmed up / cold}",
+                "0..=3 from {all four members, warmed up} and from the empty fleet; 0..=2 from {all four, cold}, {n0:{a,b} n2:{a}, warmed up / cold}"),
+            "max_attempts": TAG_MAX_ATTEMPTS,
+            "scenarios_executed": c("fleet:dyn:scenarios") + c("async:dyn:scenarios"),
+            "broadcast_json_calls": c("fleet:dyn:broadcast_json") + c("async:dyn:broadcast_json"),
+            "map_reduce_json_calls": c("fleet:dyn:map_reduce_json") + c("async:dyn:map_reduce_json"),
+            "filter_nodes_comparisons": c("fleet:dyn:filter_nodes_compared") + c("async:dyn:filter_nodes_compared"),
+        },
         "alphabet": ALPHABET.iter().map(|o| o.name()).collect::<Vec<_>>(),
         "node_timeout_ms": NODE_TIMEOUT.as_millis() as u64,
         "retry_delay_ms": RETRY_DELAY.as_millis() as u64,
         "scenarios_planned": plan.total,
         "candidate_violations_not_reproduced": transient,
         "watchdog_expiries_not_reproduced": hangs_gone,
+        "fake_nodes_on_a_port_below_the_ephemeral_range(bind(0) found none free)": node::PRIVATE_PORTS_USED.load(Ordering::Relaxed),
         "runs_repeated_because_the_machine_disturbed_them": DISTURBED_RERUNS.load(Ordering::Relaxed),
         "scenarios_slow_in_every_repetition": DISTURBED_KEPT.load(Ordering::Relaxed),
         "violation_keys_confirmed_by_rerun": confirmed_keys,
         "nonvacuity": total.counters,
-        "samples": samples.take(),
+        "samples": all_samples,
     });
     ctx.finish(
         "fault_enumeration",
@@ -1577,6 +1862,9 @@ pub fn run(tier: Tier) -> ! {
             "accepted-then-closed = the request has arrived but is never read and the connection is closed (RST), so the fleet's write has completed; closed-while-idle = the attempt is answered normally and, once the call has returned, the node half-closes and waits for the fleet's FIN before the next call",
             "verdicts depend on counts and results only; time is used for one thing: a run in which a call overran by about a node timeout (>= 120 ms beyond its silent attempts) or in which a request surfaced after its call had returned was disturbed by the machine and is repeated (up to 5 times, then judged as observed)",
             "a violation is reported only if the same key shows in the first run of its case and in both re-runs (after a single miss: in two further runs); what does not reproduce is dropped and counted, more than 2% of scenarios dropped or more than two unreproduced watchdog expiries are a machinery error; a key proven once is not re-proven on later cases",
+            "maintenance calls (connect_all, health_check, reconnect_disconnected, disconnect_all, is_connected_all, connected_nodes) are judged only for returning without a panic; what they report is counted. The excuse of one failed attempt after a connection killed while idle goes to the next operation that uses the cached client: a call or a health_check; connect_all and reconnect_disconnected do not use an existing client (the excuse carries over them), disconnect_all discards every client (nothing is left to excuse, so the next call must reconnect and succeed)",
+            "a dead node refuses every connect for as long as the maintenance call or the mixed round lasts (each refused connect is counted as an attempt); a connection that connect_all / reconnect_disconnected made and on which no request has travelled yet counts as held by the fleet once the call has returned and the node has accepted it",
+            "node-set membership follows what add_node / remove_node returned (Ok / true = changed, Err / false = unchanged); whether that return fits the previous membership is counted, not judged. filter_nodes is compared with the fan-out that follows it under the same membership: the two document the same selection rule, so a difference is reported under a key of its own",
             "loopback TCP on Linux; kernel behaviours other than the scripted ones are not covered",
         ],
     )
